@@ -3,7 +3,7 @@
    specification (headers, versions, streams) in Proofs/XfrSpec.v. *)
 From DV Require Import Base.Prelude Model.XfrM Proofs.XfrSpec.
 From DV Require Proofs.XfrZone Proofs.XfrDiff.
-From DV Require Proofs.XfrSafety Proofs.XfrBasic Proofs.XfrIxfr Proofs.XfrAxfr Proofs.XfrFault Proofs.XfrOrder Proofs.XfrRefresh Proofs.XfrGlue Proofs.XfrTsig.
+From DV Require Proofs.XfrSafety Proofs.XfrBasic Proofs.XfrIxfr Proofs.XfrAxfr Proofs.XfrFault Proofs.XfrOrder Proofs.XfrRefresh Proofs.XfrGlue Proofs.XfrTsig Proofs.XfrSections Proofs.XfrGroup.
 From Coq Require Import Sorting.Permutation.
 
 (* Whatever is received (any messages, any records, any chunking, any fault), if the transfer ends
@@ -251,6 +251,79 @@ Theorem done_has_announced_soa : forall z rdt ser udp ws z' n,
 Proof. exact XfrFault.done_has_announced_soa. Qed.
 Print Assumptions done_has_announced_soa.
 
+(* ---- the transfer is only as good as the stream.  An IXFR response with a well-formed SOA skeleton
+        (XfrSections.skel_ok: every deletion section starts at the current serial, the chain ends at
+        the announced serial) is applied section by section WHATEVER its records are: exact deletion
+        of the deleted records, SOA replacement, set union with the added records
+        (XfrSections.apply_secs).  So a dropped or altered non-SOA record is either caught by
+        delete_exact or changes the result by exactly that record. ---- *)
+Theorem ixfr_sections_applied : forall fin secs z0 z' ser ws,
+  secs <> [] -> XfrSections.skel_ok ser fin secs -> XfrSections.end_serial ser secs = v_serial fin ->
+  ttl_ok (v_ttl fin) -> v_serial fin <> ser -> serial_lt (v_serial fin) ser = false ->
+  XfrSections.apply_secs z0 secs = Some z' ->
+  chunking tIXFR (soa_rr fin :: XfrSections.secs_stream secs ++ [soa_rr fin]) ws ->
+  exists n, inbound_xfr z0 tIXFR (Some ser) false ws = (Done (zput soakey (v_ttl fin, [v_soa fin]) z'), n).
+Proof. exact XfrSections.ixfr_sections_applied. Qed.
+Print Assumptions ixfr_sections_applied.
+
+(* some deletion (dropped earlier, altered, duplicated ...) does not apply: DeleteNotExact, zone untouched *)
+Theorem ixfr_sections_rejected : forall fin secs tail z0 ser ws,
+  XfrSections.skel_ok ser fin secs ->
+  v_serial fin <> ser -> serial_lt (v_serial fin) ser = false ->
+  XfrSections.apply_secs z0 secs = None ->
+  chunking tIXFR (soa_rr fin :: XfrSections.secs_stream secs ++ tail) ws ->
+  exists n, inbound_xfr z0 tIXFR (Some ser) false ws = (Error eDeleteNotExact z0, n).
+Proof. exact XfrSections.ixfr_sections_rejected. Qed.
+Print Assumptions ixfr_sections_rejected.
+
+(* an addition of the last section received as another record: both transfers complete and the zones
+   agree everywhere except at the two RRsets concerned *)
+Theorem ixfr_altered_addition : forall fin pre c A1 a a' A2 z0 z1 z2 ser ws1 ws2,
+  XfrSections.c_adds c = A1 ++ a :: A2 -> XfrZone.plain a -> XfrZone.plain a' ->
+  XfrSections.skel_ok ser fin (pre ++ [c]) -> XfrSections.end_serial ser (pre ++ [c]) = v_serial fin ->
+  ttl_ok (v_ttl fin) -> v_serial fin <> ser -> serial_lt (v_serial fin) ser = false ->
+  XfrSections.apply_secs z0 (pre ++ [c]) = Some z1 ->
+  XfrSections.apply_secs z0 (pre ++ [XfrSections.set_adds c (A1 ++ a' :: A2)]) = Some z2 ->
+  chunking tIXFR (soa_rr fin :: XfrSections.secs_stream (pre ++ [c]) ++ [soa_rr fin]) ws1 ->
+  chunking tIXFR (soa_rr fin :: XfrSections.secs_stream (pre ++ [XfrSections.set_adds c (A1 ++ a' :: A2)]) ++ [soa_rr fin]) ws2 ->
+  exists zf1 zf2 n1 n2,
+    inbound_xfr z0 tIXFR (Some ser) false ws1 = (Done zf1, n1) /\
+    inbound_xfr z0 tIXFR (Some ser) false ws2 = (Done zf2, n2) /\
+    forall k, rkey a <> k -> rkey a' <> k -> look zf2 k = look zf1 k.
+Proof. exact XfrSections.ixfr_altered_addition. Qed.
+Print Assumptions ixfr_altered_addition.
+
+(* ---- the parser's RRset grouping (dns.message, xfr=True): what process_message gets to see ---- *)
+
+(* one_rr_per_rrset (IXFR): every record is its own RRset, in stream order *)
+Theorem group_one_rr : forall rs, group true rs = map single rs.
+Proof. exact XfrBasic.group_true. Qed.
+Print Assumptions group_one_rr.
+
+(* force_unique is sticky: from the first SOA record of the section on, stream order is preserved *)
+Theorem group_after_soa : forall f x1 r x2, r_type r = tSOA ->
+  group f (x1 ++ r :: x2) = group f x1 ++ single r :: map single x2.
+Proof. exact XfrGroup.group_after_soa. Qed.
+Print Assumptions group_after_soa.
+
+(* merging neither loses nor invents a record *)
+Theorem group_keeps_records : forall f x t,
+  In t (XfrGroup.tups (group f x)) <-> In t (map XfrGroup.tup x).
+Proof. exact XfrGroup.group_keeps_records. Qed.
+Print Assumptions group_keeps_records.
+
+(* hence for AXFR in wire form: a message that carries records after the final SOA - of any content,
+   also of an RRset that occurred before the SOA in the same message - is rejected *)
+Theorem axfr_surplus_rejected : forall v B z0 ser wsA wl ws3 c2 y x2,
+  Forall XfrGlue.okrec B ->
+  Forall (header_ok tAXFR) wsA -> header_ok tAXFR wl ->
+  concat (map w_records wsA) ++ c2 = soa_rr v :: B ->
+  w_records wl = c2 ++ soa_rr v :: y :: x2 ->
+  match wsA with w :: _ => w_records w <> [] | [] => True end ->
+  exists n, inbound_xfr z0 tAXFR ser false (wsA ++ wl :: ws3) = (Error eAfterFinal z0, n).
+Proof. exact XfrGroup.axfr_surplus_rejected. Qed.
+Print Assumptions axfr_surplus_rejected.
+
 (* ---- a secondary refreshing its zone (make_query -> extract_serial_from_query -> the server's
         answer for that serial -> transfer) ---- *)
 
@@ -492,4 +565,14 @@ Example ex_missing_tsig :
   xfr_run true [((5, 1, 0), (1, [1]))] tAXFR None false
     [mkWT 0 [] [soa_rr ex_v2; mkRR 0 1 2 0 3600 3] true; mkWT 0 [] [mkRR 2 1 16 0 0 9; mkRR 0 1 2 0 3600 2; soa_rr ex_v2] false]
   = (Error eMissingTSIG [((5, 1, 0), (1, [1]))], 1%nat).
+Proof. vm_compute. reflexivity. Qed.
+
+(* "only as good as the stream": the last add-section SOA duplicated, with a message boundary right
+   after the duplicate, is a well-formed response for ANOTHER target (empty last addition section);
+   the transfer completes with that zone - it cannot be detected *)
+Example ex_dup_last_addstart_undetectable :
+  fst (inbound_xfr (zone_of ex_v0) tIXFR (Some (v_serial ex_v0)) false
+         [mkW 0 [] [soa_rr ex_v1; soa_rr ex_v0; mkRR 1 1 1 0 300 4; mkRR 1 1 1 0 300 5; soa_rr ex_v1; soa_rr ex_v1];
+          mkW 0 [] [mkRR 1 1 1 0 60 4; mkRR 1 1 1 0 60 5; soa_rr ex_v1]])
+  = Done [(soakey, (3600, [v_soa ex_v1])); ((0, 2, 0), (3600, [1; 2]))].
 Proof. vm_compute. reflexivity. Qed.
